@@ -1,57 +1,82 @@
 /-
   Lemmas/BumpEq.lean — proofs behind Props/C11.lean.
+
+  The work is done in
+  * `Lemmas/Align.lean`         — `upAlign` / `downAlign`, powers of two, bit masks
+  * `Lemmas/RsOps.lean`         — rewriting lemmas for the `Rs` primitives, `debug_assert_valid`,
+                                  the `rs_simp` evaluation tactic
+  * `Lemmas/EqBumpUp.lean`, `EqBumpDown.lean`, `EqPrepareUp.lean`, `EqPrepareDown.lean`
+                                — generated code = specification
+  * `Lemmas/SpecProps.lean`     — properties of the specification
 -/
 import BumpProof.Gen.Bumping
 import BumpProof.Spec.Bump
 import BumpProof.Spec.BumpValid
+import BumpProof.Lemmas.EqBumpUp
+import BumpProof.Lemmas.EqBumpDown
+import BumpProof.Lemmas.EqPrepareUp
+import BumpProof.Lemmas.EqPrepareDown
+import BumpProof.Lemmas.SpecProps
 
 namespace Lemmas
 open Gen.Bumping Rs C11
 
 theorem bump_up_eq (p : BumpProps) (h : Valid true p) :
     bump_up p = .ok ((Spec.bumpUp p.start p.«end» p.layout.size p.layout.align p.min_align).map
-      fun r => { new_pos := r.2, ptr := r.1 }) := by sorry
+      fun r => { new_pos := r.2, ptr := r.1 }) :=
+  bump_up_ok p h
 
 theorem bump_down_eq (p : BumpProps) (h : Valid false p) :
-    bump_down p = .ok (Spec.bumpDown p.start p.«end» p.layout.size p.layout.align p.min_align) := by sorry
+    bump_down p = .ok (Spec.bumpDown p.start p.«end» p.layout.size p.layout.align p.min_align) :=
+  bump_down_ok p h
 
 theorem bump_prepare_up_eq (p : BumpProps) (h : Valid true p) :
-    bump_prepare_up p = .ok (Spec.prepareUp p.start p.«end» p.layout.size p.layout.align) := by sorry
+    bump_prepare_up p = .ok (Spec.prepareUp p.start p.«end» p.layout.size p.layout.align) :=
+  bump_prepare_up_ok p h
 
 theorem bump_prepare_down_eq (p : BumpProps) (h : Valid false p) :
-    bump_prepare_down p = .ok (Spec.prepareDown p.start p.«end» p.layout.size p.layout.align) := by sorry
+    bump_prepare_down p = .ok (Spec.prepareDown p.start p.«end» p.layout.size p.layout.align) :=
+  bump_prepare_down_ok p h
 
 theorem bumpUp_some {s e sz al ma ptr np : Nat} (hal : 0 < al) (hma : 0 < ma) (hme : ma ∣ e)
     (h : Spec.bumpUp s e sz al ma = some (ptr, np)) :
     al ∣ ptr ∧ s ≤ ptr ∧ ptr + sz ≤ np ∧ np ≤ e ∧ ma ∣ np ∧ np < ptr + sz + ma ∧
-    (∀ q, al ∣ q → s ≤ q → ptr ≤ q) := by sorry
+    (∀ q, al ∣ q → s ≤ q → ptr ≤ q) :=
+  bumpUp_some' hal hma hme h
 
 theorem bumpUp_none_iff {s e sz al ma : Nat} (hal : 0 < al) :
-    Spec.bumpUp s e sz al ma = none ↔ ¬ ∃ q, al ∣ q ∧ s ≤ q ∧ q + sz ≤ e := by sorry
+    Spec.bumpUp s e sz al ma = none ↔ ¬ ∃ q, al ∣ q ∧ s ≤ q ∧ q + sz ≤ e :=
+  bumpUp_none_iff' hal
 
 theorem bumpDown_some {s e sz al ma ptr : Nat} (hal : 0 < al) (hma : 0 < ma)
     (hdvd : al ∣ ma ∨ ma ∣ al)
     (h : Spec.bumpDown s e sz al ma = some ptr) :
     al ∣ ptr ∧ ma ∣ ptr ∧ s ≤ ptr ∧ ptr + sz ≤ e ∧
-    (∀ q, al ∣ q → ma ∣ q → q + sz ≤ e → q ≤ ptr) := by sorry
+    (∀ q, al ∣ q → ma ∣ q → q + sz ≤ e → q ≤ ptr) :=
+  bumpDown_some' hal hma hdvd h
 
 theorem bumpDown_none_iff {s e sz al ma : Nat} (hal : 0 < al) (hma : 0 < ma) (hdvd : al ∣ ma ∨ ma ∣ al) :
-    Spec.bumpDown s e sz al ma = none ↔ ¬ ∃ q, al ∣ q ∧ ma ∣ q ∧ s ≤ q ∧ q + sz ≤ e := by sorry
+    Spec.bumpDown s e sz al ma = none ↔ ¬ ∃ q, al ∣ q ∧ ma ∣ q ∧ s ≤ q ∧ q + sz ≤ e :=
+  bumpDown_none_iff' hal hma hdvd
 
 theorem prepareUp_some {s e sz al rs re : Nat} (hal : 0 < al) (hsz : al ∣ sz)
     (h : Spec.prepareUp s e sz al = some (rs, re)) :
     al ∣ rs ∧ al ∣ re ∧ s ≤ rs ∧ re ≤ e ∧ rs + sz ≤ re ∧
-    (∀ a b, al ∣ a → al ∣ b → s ≤ a → a ≤ b → b ≤ e → rs ≤ a ∧ b ≤ re) := by sorry
+    (∀ a b, al ∣ a → al ∣ b → s ≤ a → a ≤ b → b ≤ e → rs ≤ a ∧ b ≤ re) :=
+  prepareUp_some' hal hsz h
 
 theorem prepareUp_none_iff {s e sz al : Nat} (hal : 0 < al) :
-    Spec.prepareUp s e sz al = none ↔ ¬ ∃ q, al ∣ q ∧ s ≤ q ∧ q + sz ≤ e := by sorry
+    Spec.prepareUp s e sz al = none ↔ ¬ ∃ q, al ∣ q ∧ s ≤ q ∧ q + sz ≤ e :=
+  prepareUp_none_iff' hal
 
 theorem prepareDown_some {s e sz al rs re : Nat} (hal : 0 < al) (hsz : al ∣ sz)
     (h : Spec.prepareDown s e sz al = some (rs, re)) :
     al ∣ rs ∧ al ∣ re ∧ s ≤ rs ∧ re ≤ e ∧ rs + sz ≤ re ∧
-    (∀ a b, al ∣ a → al ∣ b → s ≤ a → a ≤ b → b ≤ e → rs ≤ a ∧ b ≤ re) := by sorry
+    (∀ a b, al ∣ a → al ∣ b → s ≤ a → a ≤ b → b ≤ e → rs ≤ a ∧ b ≤ re) :=
+  prepareDown_some' hal hsz h
 
 theorem prepareDown_none_iff {s e sz al : Nat} (hal : 0 < al) (hsz : al ∣ sz) :
-    Spec.prepareDown s e sz al = none ↔ ¬ ∃ q, al ∣ q ∧ s ≤ q ∧ q + sz ≤ e := by sorry
+    Spec.prepareDown s e sz al = none ↔ ¬ ∃ q, al ∣ q ∧ s ≤ q ∧ q + sz ≤ e :=
+  prepareDown_none_iff' hal hsz
 
 end Lemmas
